@@ -125,7 +125,16 @@ def naturals_event(D, S, spec, den, ks=None):
     """D, S: integer matrices (lists); spec: integer spectrum of D S; occupations = spec/den."""
     from iodata.utils import derive_naturals
     Df, Sf, t = scaled(D, S, den, ks)
-    ev = {"op": "Naturals", "D": D, "S": S, "spec": list(spec), "den": den, "ks": list(ks or [])}
+    ev = {"op": "Naturals", "D": D, "S": S, "spec": list(spec), "den": den, "ks": list(ks or []), "sdtype": "float64"}
+    if ks is None:
+        # the overlap of the machine state is an integer matrix: hand it over as such, or in single precision (exactly representable)
+        pick = (sum(sum(abs(x) for x in row) for row in S) + len(D)) % 4
+        if pick == 1:
+            Sf = np.array(S, dtype=np.int64)
+            ev["sdtype"] = "int64"
+        elif pick == 2 and np.abs(np.array(S)).max() < 2 ** 20:
+            Sf = np.array(S, dtype=np.float32)
+            ev["sdtype"] = "float32"
     try:
         coeffs, occs = derive_naturals(Df, Sf)
         want = np.sort(np.array(spec, dtype=float) / den)
@@ -151,6 +160,40 @@ def checkdm_event(D, S, spec, den, eps, occ_max, ks=None):
     # spec[i]/den in [-eps, occ_max+eps]  <=>  spec[i]*K in [-eps*K*den, (occ_max+eps)*K*den]
     return {"op": "CheckDm", "D": D, "S": S, "spec": list(spec), "k": K, "lo": int(round(-eps * K * den)),
             "hi": int(round((occ_max + eps) * K * den)), "accepted": acc, "eps": eps, "occ_max": occ_max, "den": den}
+
+
+def checkdm_edge_events(rng, n_events):
+    """Occupations a few millionths inside / outside the accepted interval [-eps, occ_max + eps] (scaled by den = 10^6 to integers):
+    the interval has no hidden slack.  D = E diag(occ) E^T, S = E^-T E^-1 for a unimodular integer E, so the occupations are the
+    spectrum by construction (not re-derived by TLC: the power sums would exceed its 32-bit integers)."""
+    from iodata.utils import check_dm
+    den = 10 ** 6
+    evs = []
+    for _ in range(n_events):
+        n = rng.randint(1, 5)
+        eps, occ_max = rng.choice([(1e-4, 1.0), (1e-4, 2.0), (1e-3, 1.0), (1e-5, 2.0)])
+        lo, hi = -int(round(eps * den)), int(round((occ_max + eps) * den))
+        spec = [rng.choice([0, den // 2, int(occ_max * den), rng.randint(0, int(occ_max * den))]) for _ in range(n)]
+        which = rng.randrange(n)
+        spec[which] = rng.choice([hi + 3, hi - 3, hi + 8, lo - 3, lo + 3, hi + 1, lo - 1])
+        E = np.eye(n)
+        for _k in range(rng.randint(0, 4)):
+            i, j = rng.randrange(n), rng.randrange(n)
+            if i != j:
+                E[i] += rng.choice([-1, 1]) * E[j]
+        Einv = np.round(np.linalg.inv(E))
+        Df = E @ np.diag(np.array(spec, dtype=float) / den) @ E.T
+        Sf = Einv.T @ Einv
+        try:
+            check_dm(Df, Sf, eps=eps, occ_max=occ_max)
+            acc = True
+        except ValueError:
+            acc = False
+        except Exception:  # noqa: BLE001
+            acc = None
+        evs.append({"op": "CheckDmEdge", "spec": spec, "lo": lo, "hi": hi, "accepted": bool(acc) if acc is not None else False,
+                    "raised_other": acc is None, "eps": eps, "occ_max": occ_max, "n": n})
+    return evs
 
 
 def block_diag(mats):
@@ -217,6 +260,7 @@ def check(run: Run):
     for it in items[:: max(1, len(items) // run.pick(300, 2000))] + [it for it in items if len(it) == 5][: run.pick(150, 1500)]:
         for eps, occ_max in ((1e-4, 1.0), (1e-4, 2.0), (0.3, 1.0), (1e-4, 1.5)):
             events.append(checkdm_event(it[0], it[1], it[2], it[3], eps, occ_max, it[4] if len(it) == 5 else None))
+    events += checkdm_edge_events(rng, run.pick(400, 4000))
     reached = validate_traces(run, "Trace_Kernels", [[e] for e in events], chunk=3000)
     kinds = {}
     for e, r in zip(events, reached):
@@ -233,7 +277,11 @@ def check(run: Run):
                 key = f"volume nvec={len(e['vecs'])} {hand} nonneg={e['nonneg']} sq_matches_gram={e['exact']}"
                 what = f"volume of {e['vecs']} is not the non-negative root of the Gram determinant: {e}"
             elif e["op"] == "Naturals":
-                key = f"derive_naturals n={len(e['D'])} occ_match={e['occ_match']} orthonormal={e['orthonormal']} reconstruct={e['reconstruct']}"
+                key = f"derive_naturals n={len(e['D'])} overlap-dtype={e.get('sdtype')} occ_match={e['occ_match']} orthonormal={e['orthonormal']} reconstruct={e['reconstruct']}"
+                what = str(e)
+            elif e["op"] == "CheckDmEdge":
+                off = max([x - e["hi"] for x in e["spec"]] + [e["lo"] - x for x in e["spec"]])
+                key = f"check_dm at the edge of the interval: occupation {'outside by' if off > 0 else 'inside by'} {abs(off)}e-6 accepted={e['accepted']} occ_max={e['occ_max']}"
                 what = str(e)
             else:
                 key = f"check_dm n={len(e['D'])} eps={e['eps']} occ_max={e['occ_max']} accepted={e['accepted']}"
@@ -243,7 +291,8 @@ def check(run: Run):
     for k in kinds:
         run.sample(next(e for e in events if e["op"] == k))
     run.assumptions += ["floating-point comparisons of derive_naturals use tolerances 1e-8..1e-7 times the squared matrix scale",
-                        "occupations are placed at least 0.2 away from the acceptance boundaries of check_dm"]
+                        "occupations of the machine states are placed at least 0.2 away from the acceptance boundaries of check_dm; the CheckDmEdge "
+                        "events probe the boundaries at distances of 1e-6 .. 8e-6 with spectra known by construction"]
 
 
 def _pattern(q):
